@@ -1,0 +1,84 @@
+//! Verification seam, compiled only with `--cfg retrofire_verif`.
+//!
+//! A stand-in for `std::fs::File` as far as [`load_pnm`][super::pnm::load_pnm],
+//! [`save_ppm`][super::pnm::save_ppm] and `retrofire_geom::io::load_obj` use it:
+//! `open` and `create` can be redirected, per thread, to a simulated file, so
+//! that the path-based wrappers run against the same simulated streams as the
+//! `impl Read` / `impl Write` functions they wrap. Without a redirection
+//! installed, or when it declines a path, the real file system is used.
+
+use std::{
+    boxed::Box,
+    cell::RefCell,
+    io::{self, Read, Write},
+    path::Path,
+};
+
+/// A simulated file system. Returning `None` declines the path.
+pub trait SimFs {
+    fn open(&self, path: &Path) -> Option<io::Result<Box<dyn Read>>>;
+    fn create(&self, path: &Path) -> Option<io::Result<Box<dyn Write>>>;
+}
+
+std::thread_local! {
+    static FS: RefCell<Option<Box<dyn SimFs>>> = const { RefCell::new(None) };
+}
+
+/// Installs (or, with `None`, removes) the simulated file system of this thread,
+/// returning the previous one.
+pub fn install(fs: Option<Box<dyn SimFs>>) -> Option<Box<dyn SimFs>> {
+    FS.with(|f| core::mem::replace(&mut *f.borrow_mut(), fs))
+}
+
+/// What the wrappers see instead of `std::fs::File`.
+pub enum File {
+    Real(std::fs::File),
+    SimRead(Box<dyn Read>),
+    SimWrite(Box<dyn Write>),
+}
+
+impl File {
+    pub fn open(path: impl AsRef<Path>) -> io::Result<File> {
+        let p = path.as_ref();
+        let sim = FS.with(|f| f.borrow().as_ref().and_then(|fs| fs.open(p)));
+        match sim {
+            Some(r) => r.map(File::SimRead),
+            None => std::fs::File::open(p).map(File::Real),
+        }
+    }
+    pub fn create(path: impl AsRef<Path>) -> io::Result<File> {
+        let p = path.as_ref();
+        let sim = FS.with(|f| f.borrow().as_ref().and_then(|fs| fs.create(p)));
+        match sim {
+            Some(w) => w.map(File::SimWrite),
+            None => std::fs::File::create(p).map(File::Real),
+        }
+    }
+}
+
+impl Read for File {
+    fn read(&mut self, buf: &mut [u8]) -> io::Result<usize> {
+        match self {
+            File::Real(f) => f.read(buf),
+            File::SimRead(r) => r.read(buf),
+            File::SimWrite(_) => Err(io::ErrorKind::Unsupported.into()),
+        }
+    }
+}
+
+impl Write for File {
+    fn write(&mut self, buf: &[u8]) -> io::Result<usize> {
+        match self {
+            File::Real(f) => f.write(buf),
+            File::SimWrite(w) => w.write(buf),
+            File::SimRead(_) => Err(io::ErrorKind::Unsupported.into()),
+        }
+    }
+    fn flush(&mut self) -> io::Result<()> {
+        match self {
+            File::Real(f) => f.flush(),
+            File::SimWrite(w) => w.flush(),
+            File::SimRead(_) => Ok(()),
+        }
+    }
+}
